@@ -34,7 +34,7 @@ type walkCase struct {
 	Selected []int     `json:"selected"`
 }
 
-var walkEpoch = time.Date(2020, 12, 31, 0, 0, 0, 0, time.UTC) // day 1 = 2021/01/01
+var walkEpoch = time.Date(2020, 12, 27, 0, 0, 0, 0, time.UTC) // day 1 = 2020/12/28: the windows straddle the end of a leap year
 
 func dayStr(d int, layout string) string { return walkEpoch.AddDate(0, 0, d).Format(layout) }
 
@@ -137,8 +137,8 @@ func walkReplay(e *env) error {
 	stride := e.argInt("stride", 1)
 	replayed := 0
 	for i, c := range all {
-		if stride > 1 && (i+int(e.seed))%stride != 0 {
-			continue // quick tier: a seeded 1-in-stride selection of the enumerated family
+		if stride > 1 && c.Kind != "summary" && (i+int(e.seed))%stride != 0 {
+			continue // quick tier (summary cases are few: all replayed): a seeded 1-in-stride selection of the enumerated family
 		}
 		replayed++
 		byZone[c.Zone] = append(byZone[c.Zone], i)
